@@ -303,30 +303,33 @@ func (r *AuthnRequest) Redirect(relayState string, sp *ServiceProvider) (*url.UR
 		return nil, err
 	}
 
-	// We can't depend on Query().set() as order matters for signing
-	query := rv.RawQuery
-	if len(query) > 0 {
-		query += "&SAMLRequest=" + url.QueryEscape(requestStr.String())
-	} else {
-		query += "SAMLRequest=" + url.QueryEscape(requestStr.String())
-	}
-
+	// We can't depend on Query().set() as order matters for signing. The
+	// signature covers exactly the octets SAMLRequest=...[&RelayState=...]&SigAlg=...
+	// and not any query parameters the IdP endpoint already carries.
+	samlQuery := "SAMLRequest=" + url.QueryEscape(requestStr.String())
 	if relayState != "" {
-		query += "&RelayState=" + url.QueryEscape(relayState)
+		samlQuery += "&RelayState=" + url.QueryEscape(relayState)
 	}
 	if len(sp.SignatureMethod) > 0 {
-		query += "&SigAlg=" + url.QueryEscape(sp.SignatureMethod)
+		samlQuery += "&SigAlg=" + url.QueryEscape(sp.SignatureMethod)
 		signingContext, err := GetSigningContext(sp)
 
 		if err != nil {
 			return nil, err
 		}
 
-		sig, err := signingContext.SignString(query)
+		sig, err := signingContext.SignString(samlQuery)
 		if err != nil {
 			return nil, err
 		}
-		query += "&Signature=" + url.QueryEscape(base64.StdEncoding.EncodeToString(sig))
+		samlQuery += "&Signature=" + url.QueryEscape(base64.StdEncoding.EncodeToString(sig))
+	}
+
+	query := rv.RawQuery
+	if len(query) > 0 {
+		query += "&" + samlQuery
+	} else {
+		query = samlQuery
 	}
 
 	rv.RawQuery = query
